@@ -791,7 +791,40 @@ func posOf(cells []s2.VerifCell, id s2.CellID) int {
 // value and its shapes is the expensive part of the correspondence).
 var tBudget int
 
+// okBudget bounds the number of indexes whose structural well-formedness Coq decides per run.
+var okBudget int
+
+// correspondIndexOk: [T] Coq decides the structural part of index_ok (Model/Index.v index_okb, with
+// the reflection lemma Proofs/C06_IndexOk.v index_okb_sound) on the dumped index value.
+func correspondIndexOk(c *vkit.Collector, col *collection, cells []s2.VerifCell) {
+	ids := 0
+	for _, cell := range cells {
+		for _, cl := range cell.Shapes {
+			ids += len(cl.Edges) + 3
+		}
+	}
+	if okBudget <= 0 || len(cells) > 80 || ids > 700 {
+		return
+	}
+	okBudget--
+	ne := make([]int, len(col.shapes))
+	for i, sh := range col.shapes {
+		ne[i] = len(sh.edges)
+	}
+	c.Eval("T:index_okb:"+col.kind+fmt.Sprint(len(cells), ids), len(cells) > 0)
+	c.Check(fmt.Sprintf("index_okb %s (%d cells)", col.kind, len(cells)), fmt.Sprintf("(index_okb %s %s)%%Z", zlistPlain(ne), coqIndex(cells)))
+}
+
+func zlistPlain(xs []int) string {
+	ss := make([]string, len(xs))
+	for i, x := range xs {
+		ss[i] = fmt.Sprint(x)
+	}
+	return "[" + joinSemi(ss) + "]"
+}
+
 func correspondIndex(c *vkit.Collector, rng *vkit.Rng, col *collection, cells []s2.VerifCell, n int) {
+	correspondIndexOk(c, col, cells)
 	if len(cells) > 24 || col.numEdges() > 48 || tBudget <= 0 {
 		return
 	}
@@ -965,6 +998,7 @@ func runIndex(c *vkit.Collector, rng *vkit.Rng, budget int) {
 	kinds := []int{0, 1, 2, 0, 3, 2, 1, 4, 0, 2, 1, 3, 0, 2, 1, 0}
 	nCollections := 80 * budget
 	tBudget = 6 * budget
+	okBudget = 12 * budget
 	maxEdges, maxCells := 0, 0
 	for it := 0; it < nCollections; it++ {
 		kind := kinds[it%len(kinds)]
